@@ -514,7 +514,9 @@ pub fn finish(
 
     for id in &known_reproduced {
         if let Some(k) = ctx.known.iter().find(|k| &k.id == id) {
-            println!("KNOWN-FINDING: property={} {} [{}]", k.property, k.what, k.id);
+            // (the same defect can surface under another property's oracle, e.g. through a will message)
+            let home = if k.property != ctx.property { format!(" (listed under {})", k.property) } else { String::new() };
+            println!("KNOWN-FINDING: property={} {} [{}]{}", ctx.property, k.what, k.id, home);
         }
     }
     println!(
